@@ -105,7 +105,40 @@ pub fn run_format(src: &str, cfg: Config, range: Option<Range>, verify: bool) ->
 
 const SMALL: usize = 600;
 
+/// TLC's Json module has no null: drop null-valued keys, replace nulls in arrays by "none".
+fn strip_nulls(v: &mut Value) {
+    match v {
+        Value::Object(m) => {
+            let keys: Vec<String> = m.iter().filter(|(_, x)| x.is_null()).map(|(k, _)| k.clone()).collect();
+            for k in keys {
+                m.remove(&k);
+            }
+            for (_, x) in m.iter_mut() {
+                strip_nulls(x);
+            }
+        }
+        Value::Array(a) => {
+            for x in a.iter_mut() {
+                if x.is_null() {
+                    *x = json!("none");
+                } else {
+                    strip_nulls(x);
+                }
+            }
+        }
+        _ => {}
+    }
+}
+
 pub fn process(case: &Value) -> Vec<Value> {
+    let mut evs = process_inner(case);
+    for e in evs.iter_mut() {
+        strip_nulls(e);
+    }
+    evs
+}
+
+fn process_inner(case: &Value) -> Vec<Value> {
     let id = case.get("id").cloned().unwrap_or(json!("?"));
     let meta = case.get("meta").cloned().unwrap_or(Value::Null);
     let mut evs = Vec::new();
@@ -163,56 +196,155 @@ pub fn process(case: &Value) -> Vec<Value> {
     } else if let Some(f) = case.get("src_file") {
         render_ev["src_file"] = f.clone();
     }
+    if let Some(preds) = case.get("meta").and_then(|m| m.get("pred")).and_then(|p| p.as_array()) {
+        let pc: Vec<Value> = preds.iter().filter_map(|p| serde_json::from_value::<Node>(p.clone()).ok()).map(|n| serde_json::to_value(canon_tree(&n)).unwrap()).collect();
+        render_ev["meta"]["pred_c"] = json!(pc);
+        if let Some(m) = render_ev["meta"].as_object_mut() {
+            m.remove("pred");
+            m.remove("expr");
+        }
+    }
     if spec_match == json!(false) {
         render_ev["expected_tree"] = serde_json::to_value(&expected).unwrap();
         render_ev["parsed_tree"] = serde_json::to_value(&in_tree).unwrap();
     }
     evs.push(render_ev);
 
-    // ---- Format
-    let (o, ms) = run_format(&src, cfg, range, false);
+    // ---- Format (one per distinct output over the sweep of configurations)
+    let cfg_json = case.get("cfg").cloned().unwrap_or(json!({}));
+    let variants = expand_sweep(&src, &cfg_json, case.get("sweep").unwrap_or(&Value::Null), range);
+    // group by outcome text
+    let mut groups: Vec<(Value, Config, Outcome, f64, Vec<Value>)> = Vec::new();
+    for (vj, vcfg, label) in variants {
+        let (o, ms) = run_format(&src, vcfg, range, false);
+        let key = outcome_key(&o);
+        if let Some(g) = groups.iter_mut().find(|g| outcome_key(&g.2) == key) {
+            g.4.push(label);
+            if ms > g.3 {
+                g.3 = ms;
+            }
+        } else {
+            groups.push((vj, vcfg, o, ms, vec![label]));
+        }
+    }
+    let in_ok = in_ast.is_ok();
+    for (vi, (vj, vcfg, o, ms, labels)) in groups.into_iter().enumerate() {
+        observe_variant(case, &id, vi, &vj, vcfg, range, &src, small, in_ok, in_tree.as_ref(), o, ms, labels, &mut evs);
+    }
+    evs
+}
+
+fn outcome_key(o: &Outcome) -> String {
+    match o {
+        Outcome::Ok(s) => format!("ok:{}", s),
+        Outcome::ParseError(_) => "parse_error".into(),
+        Outcome::OtherError(m) => format!("error:{}", m),
+        Outcome::Panic(m) => format!("panic:{}", m),
+    }
+}
+
+/// Expand case.sweep (option -> list of values, or "all" for column_width) into concrete configs.
+fn expand_sweep(src: &str, cfg: &Value, sweep: &Value, range: Option<Range>) -> Vec<(Value, Config, Value)> {
+    let mut axes: Vec<(String, Vec<Value>)> = Vec::new();
+    if let Some(m) = sweep.as_object() {
+        for (k, v) in m {
+            if k == "column_width" && v.as_str() == Some("all") {
+                // measure the widest line at unlimited width
+                let mut c = cfg.clone();
+                c["column_width"] = json!(100000);
+                let mut fit = 40usize;
+                if let Ok(pc) = parse_cfg(&c) {
+                    if let (Outcome::Ok(s), _) = run_format(src, pc, range, false) {
+                        fit = s.lines().map(|l| l.chars().map(|ch| if ch == '\t' { 4 } else { 1 }).sum::<usize>()).max().unwrap_or(1);
+                    }
+                }
+                let top = fit + 1;
+                let mut ws: Vec<usize> = if top <= 140 { (1..=top).collect() } else { (1..=top).step_by(top / 100 + 1).chain([top - 1, top]).collect() };
+                ws.sort();
+                ws.dedup();
+                axes.push((k.clone(), ws.into_iter().map(|w| json!(w)).collect()));
+            } else if let Some(a) = v.as_array() {
+                axes.push((k.clone(), a.clone()));
+            }
+        }
+    }
+    let mut out: Vec<(Value, Value)> = vec![(cfg.clone(), json!({}))];
+    for (k, vals) in axes {
+        let mut next = Vec::new();
+        for (c, l) in &out {
+            for v in &vals {
+                let mut c2 = c.clone();
+                let mut l2 = l.clone();
+                if k == "sort_requires" {
+                    c2[&k] = json!({"enabled": v});
+                } else {
+                    c2[&k] = v.clone();
+                }
+                l2[&k] = v.clone();
+                next.push((c2, l2));
+            }
+        }
+        out = next;
+    }
+    out.into_iter().filter_map(|(c, l)| parse_cfg(&c).ok().map(|pc| (c, pc, l))).collect()
+}
+
+#[allow(clippy::too_many_arguments)]
+fn observe_variant(
+    case: &Value, id: &Value, vi: usize, vcfg_json: &Value, cfg: Config, range: Option<Range>, src: &str, small: bool, in_ok: bool,
+    in_tree: Option<&Node>, o: Outcome, ms: f64, labels: Vec<Value>, evs: &mut Vec<Value>,
+) {
+    let want = |w: &str| case.get("want").and_then(|x| x.as_array()).map_or(false, |a| a.iter().any(|x| x.as_str() == Some(w)));
+    let nlabels = labels.len();
+    let labels_short: Vec<Value> = if labels.len() > 6 { let mut v: Vec<Value> = labels[..3].to_vec(); v.extend_from_slice(&labels[labels.len()-3..]); v } else { labels };
+    let base = json!({"id": id, "variant": vi, "cfg": vcfg_json, "labels": labels_short, "nlabels": nlabels, "cpu_ms": ms, "len": src.len(), "in_parse": if in_ok {"ok"} else {"err"}});
+    let mk = |ev: &str, extra: Value| -> Value {
+        let mut b = base.clone();
+        b["ev"] = json!(ev);
+        if let Some(m) = extra.as_object() {
+            for (k, v) in m {
+                b[k] = v.clone();
+            }
+        }
+        b
+    };
     let out = match o {
         Outcome::Ok(s) => s,
         Outcome::ParseError(e) => {
-            evs.push(json!({"ev": "Format", "id": id, "outcome": "parse_error", "cpu_ms": ms, "len": src.len(), "in_parse": if in_ast.is_ok() {"ok"} else {"err"}, "msg": e}));
-            return evs;
+            evs.push(mk("Format", json!({"outcome": "parse_error", "msg": e})));
+            return;
         }
         Outcome::OtherError(e) => {
-            evs.push(json!({"ev": "Format", "id": id, "outcome": "error", "cpu_ms": ms, "len": src.len(), "in_parse": if in_ast.is_ok() {"ok"} else {"err"}, "msg": e}));
-            return evs;
+            evs.push(mk("Format", json!({"outcome": "error", "msg": e})));
+            return;
         }
         Outcome::Panic(e) => {
-            evs.push(json!({"ev": "Format", "id": id, "outcome": "panic", "cpu_ms": ms, "len": src.len(), "in_parse": if in_ast.is_ok() {"ok"} else {"err"}, "msg": e}));
-            return evs;
+            evs.push(mk("Format", json!({"outcome": "panic", "msg": e})));
+            return;
         }
     };
-    let c_in = obs::census(&src);
+    let c_in = obs::census(src);
     let c_out = obs::census(&out);
-    let nf_in = obs::token_nf(&src);
+    let nf_in = obs::token_nf(src);
     let nf_out = obs::token_nf(&out);
-    let mut fev = json!({
-        "ev": "Format", "id": id, "outcome": "ok", "cpu_ms": ms, "len": src.len(), "out_len": out.len(),
-        "in_parse": if in_ast.is_ok() {"ok"} else {"err"},
+    let nfd = obs::first_diff(&nf_in, &nf_out);
+    let nf_same = nfd.is_null();
+    let mut fev = mk("Format", json!({
+        "outcome": "ok", "out_len": out.len(),
         "identity": out == src,
         "census_n": c_in.len(),
         "census_lost": obs::ckeys_json(&obs::bag_diff(&c_in, &c_out)),
         "census_gained": obs::ckeys_json(&obs::bag_diff(&c_out, &c_in)),
         "nf_n": nf_in.len(),
-        "nf_diff": obs::first_diff(&nf_in, &nf_out),
-    });
+        "nf_diff": nfd, "nf_same": nf_same,
+    }));
     if small || want("out") {
         fev["out"] = json!(out);
-    }
-    if small {
-        fev["census_in"] = obs::ckeys_json(&c_in);
-        fev["census_out"] = obs::ckeys_json(&c_out);
-        fev["nf_in"] = json!(nf_in);
-        fev["nf_out"] = json!(nf_out);
     }
     // statement-level observations (ignore directives / ranges)
     let exempt: Vec<(usize, usize)>;
     if want("stmts") {
-        let so = stmts::observe(&src, &out, &cfg, range, case);
+        let so = stmts::observe(src, &out, &cfg, range, case);
         exempt = so.exempt_out.clone();
         fev["stmts"] = so.json;
     } else {
@@ -222,11 +354,9 @@ pub fn process(case: &Value) -> Vec<Value> {
         fev["lines"] = obs::line_classes(&out, &exempt);
     }
     if want("strings") {
-        let si = obs::string_table(&src);
-        let so = obs::string_table(&out);
-        fev["strings_in"] = json!(si);
-        fev["strings_out"] = json!(so);
-        fev["numbers_in"] = json!(obs::number_table(&src));
+        fev["strings_in"] = json!(obs::string_table(src));
+        fev["strings_out"] = json!(obs::string_table(&out));
+        fev["numbers_in"] = json!(obs::number_table(src));
         fev["numbers_out"] = json!(obs::number_table(&out));
     }
     evs.push(fev);
@@ -234,16 +364,15 @@ pub fn process(case: &Value) -> Vec<Value> {
     // ---- Reparse
     let out_ast = fm_parse(&out, &cfg);
     let out_tree = out_ast.as_ref().ok().map(project::p_ast);
-    let mut rev = json!({"ev": "Reparse", "id": id, "ok": out_ast.is_ok()});
+    let mut rev = mk("Reparse", json!({"ok": out_ast.is_ok()}));
     if let Err(e) = &out_ast {
         rev["msg"] = json!(e);
     }
-    if let (Some(it), Some(ot)) = (&in_tree, &out_tree) {
+    if let (Some(it), Some(ot)) = (in_tree, &out_tree) {
         let mi = project::meaning(it, false);
         let mo = project::meaning(ot, false);
         rev["meaning_in_digest"] = json!(project::digest(&mi));
         rev["meaning_out_digest"] = json!(project::digest(&mo));
-        // per-statement digests of the top-level block (first differing statement index)
         let n = mi.c.len().min(mo.c.len());
         let mut fd: Value = Value::Null;
         for i in 0..n {
@@ -256,6 +385,9 @@ pub fn process(case: &Value) -> Vec<Value> {
             fd = json!({"stmt": n + 1, "in_kind": "count", "out_kind": "count"});
         }
         rev["meaning_first_diff"] = fd;
+        if mi != mo {
+            rev["meaning_site"] = json!(project::diff_site(&mi, &mo));
+        }
         rev["stmts_in"] = json!(mi.c.len());
         rev["stmts_out"] = json!(mo.c.len());
         if small {
@@ -272,8 +404,8 @@ pub fn process(case: &Value) -> Vec<Value> {
 
     // ---- Reformat
     if want("reformat") && range.is_none() {
-        let (o2, ms2) = run_format(&out, cfg, range_for_second_pass(range, want("range_second")), false);
-        let mut e2 = json!({"ev": "Reformat", "id": id, "cpu_ms": ms2});
+        let (o2, ms2) = run_format(&out, cfg, None, false);
+        let mut e2 = mk("Reformat", json!({"cpu_ms2": ms2}));
         match o2 {
             Outcome::Ok(s2) => {
                 e2["outcome"] = json!("ok");
@@ -286,7 +418,6 @@ pub fn process(case: &Value) -> Vec<Value> {
                     if let Outcome::Ok(s3) = o3 {
                         e2["third_equal"] = json!(s3 == s2);
                     }
-                    // first differing line
                     let la: Vec<&str> = out.lines().collect();
                     let lb: Vec<&str> = s2.lines().collect();
                     let mut k = 0;
@@ -314,11 +445,10 @@ pub fn process(case: &Value) -> Vec<Value> {
         evs.push(e2);
     }
     if want("verify") {
-        let (ov, _) = run_format(&src, cfg, range, true);
-        evs.push(json!({"ev": "Verify", "id": id, "outcome": match ov {
-            Outcome::Ok(_) => "ok", Outcome::ParseError(_) => "parse_error", Outcome::OtherError(_) => "verify_error", Outcome::Panic(_) => "panic" }}));
+        let (ov, _) = run_format(src, cfg, range, true);
+        evs.push(mk("Verify", json!({"outcome": match ov {
+            Outcome::Ok(_) => "ok", Outcome::ParseError(_) => "parse_error", Outcome::OtherError(_) => "verify_error", Outcome::Panic(_) => "panic" }})));
     }
-    evs
 }
 
 fn range_for_second_pass(_r: Option<Range>, _keep: bool) -> Option<Range> {
